@@ -1,3 +1,5 @@
+//@@ implshape src/parsing/chunked_reader.rs impl<R>~BufRead~for~ChunkedReader<R> fill_buf,consume
+//@@ implshape src/parsing/chunked_reader.rs impl<R>~Read~for~ChunkedReader<R> read
 // ===================== extracted code =====================
 pub mod buffers {
 use super::*;
